@@ -20,6 +20,17 @@ Driver for component `deflate` (property C19).  Script on stdin, one op per line
     reads <level> <hex> [<hex>]   -> reads n=<count> max=<highest index read|-> len=<length> ok=<0|1>   (model only)
                                      the indices of the header value the offer parser reads, element by element
 
+    il <msg>…                     -> il [<events>|<state> …] …          one bracket per message, one token per frame
+                                     frames through `ws_handle_frame` on ONE connection (`runFramesNow`);
+                                     msg = <t|b|T|B>/<fraghex.fraghex…>/<ctl>/<payloadhex>: text/binary, lower case =
+                                     compressed (RSV1 on the first frame), one fragment = unfragmented, `-` = an empty one;
+                                     ctl = `-` or <pos><P|Q|X><hex>.… : a ping / pong / close frame with this payload
+                                     behind `pos` fragments of the message.  zlib is the oracle "inflate(these fragments
+                                     ++ tail) = payload", per message (the harness took the fragments from the real
+                                     deflate stream).  events: f<op>:<last>:<len>:<fnv> (frame callback), m<op>:<len>:<fnv>
+                                     (message callback), pong:<hex>, close:<code>:<error>, `-` none; state:
+                                     <is_fragmented><is_frag_compressed>:<frag_opcode>:<avail_in>, `x` = closed
+
 Ops of the harness that have no model counterpart (rt, dec, mut, offerx) are answered with `-`.
 `drv_deflate consts` prints the regenerated constants the model uses.
 -/
@@ -85,6 +96,102 @@ def readsLine (level : Nat) (value after : Bytes) : String :=
   let mx : Nat := all.foldl (fun a r => r.1.foldl (fun b i => max b (i + 1)) a) 0
   s!"reads n={cnt} max={if mx = 0 then "-" else toString (mx - 1)} elems={es.length} ok={b2n ok}"
 
+/-! ### `il`: frames with control frames between the fragments -/
+
+def fnv (bs : Bytes) : UInt32 :=
+  bs.foldl (fun h b => (h ^^^ b.toUInt32) * 16777619) 2166136261
+
+def hex8 (v : UInt32) : String :=
+  String.join ((List.range 4).map fun i => Hex.ofByte (v >>> (UInt32.ofNat (8 * (3 - i)))).toUInt8)
+
+def showEv : Ev → String
+  | .frame op d last => s!"f{op}:{b2n last}:{d.length}:{hex8 (fnv d)}"
+  | .message op d => s!"m{op}:{d.length}:{hex8 (fnv d)}"
+  | .pong d => s!"pong:{Hex.ofBytes d}"
+  | .closed code e => s!"close:{code}:{b2n e}"
+  | .wild => "wild"
+
+def showConn : Option Conn → String
+  | none => "x"
+  | some c => s!"{b2n c.fl.isFragmented}{b2n c.fl.isFragCompressed}:{c.fl.fragOpcode}:{c.buf.st.avail}"
+
+/-- the status a close frame is answered with (1000 = accepted): `is_status_code_invalid` and, for the reason,
+    "all bytes below 0x80" in place of the UTF-8 checker (the check only sends ASCII reasons) -/
+def closeCodeOf (p : Bytes) : Nat :=
+  if 2 < p.length && !(p.drop 2).all (· < 0x80) then closeUnsupportedData
+  else
+    let code := if 2 ≤ p.length then (p.getD 0 0).toNat * 256 + (p.getD 1 0).toNat else closeNormal
+    let valid := (1000 ≤ code && code ≤ 1003) || (1007 ≤ code && code ≤ 1011) || (3000 ≤ code && code ≤ 4999)
+    if p.length == 1 || wsSmallFrame < p.length || !valid then closeProtocolError else closeNormal
+
+/-- `<pos><P|Q|X><hex>` -/
+def parseCtlItem (s : String) : Option (Nat × Frame) :=
+  let ds := s.toList.takeWhile Char.isDigit
+  match s.toList.drop ds.length with
+  | k :: rest =>
+    match (String.ofList ds).toNat?, (if rest.isEmpty then some [] else Hex.parseList rest) with
+    | some pos, some pl =>
+      if k == 'P' then some (pos, ⟨true, 0, opPing, pl⟩)
+      else if k == 'Q' then some (pos, ⟨true, 0, opPong, pl⟩)
+      else if k == 'X' then some (pos, ⟨true, 0, opClose, pl⟩)
+      else none
+    | _, _ => none
+  | [] => none
+
+structure IlMsg where
+  compressed : Bool
+  op : Nat
+  frags : List Bytes
+  ctl : List (Nat × Frame)
+  payload : Bytes
+
+def parseIlMsg (w : String) : Option IlMsg :=
+  match w.splitOn "/" with
+  | [k, fr, ct, pl] =>
+    let kind : Option (Bool × Nat) :=
+      if k == "t" then some (true, opText) else if k == "b" then some (true, opBinary)
+      else if k == "T" then some (false, opText) else if k == "B" then some (false, opBinary) else none
+    match kind, (fr.splitOn ".").mapM Hex.toBytes?, (if ct == "-" then some [] else (ct.splitOn ".").mapM parseCtlItem),
+        Hex.toBytes? pl with
+    | some (c, op), some frs, some ctl, some p => if frs.isEmpty then none else some ⟨c, op, frs, ctl, p⟩
+    | _, _, _, _ => none
+  | _ => none
+
+/-- the frames of one message in wire order: behind `pos` fragments the control frames with that position -/
+def ilFrames (m : IlMsg) : List Frame :=
+  let n := m.frags.length
+  let ctlAt (pos : Nat) : List Frame := (m.ctl.filter (·.1 == pos)).map (·.2)
+  let data : List (List Frame) := (List.range n).map fun i =>
+    ctlAt i ++ [⟨i + 1 == n, if i == 0 && m.compressed then rsvCompressed else 0,
+                 if i == 0 then m.op else opContinuation, m.frags.getD i []⟩]
+  data.flatten ++ ctlAt n
+
+/-- one token per frame; nothing behind the frame that closed the connection -/
+def ilRun (inflate : Bytes → Option Bytes) : Option Conn → List Frame → List String × Option Conn
+  | none, _ => ([], none)
+  | some c, [] => ([], some c)
+  | some c, f :: rest =>
+    let r := handleFrameNow inflate closeCodeOf c f
+    let evs := if r.1.isEmpty then "-" else ",".intercalate (r.1.map showEv)
+    let t := ilRun inflate r.2 rest
+    (s!"{evs}|{showConn r.2}" :: t.1, t.2)
+
+def ilLine (ws : List String) : String :=
+  match ws.mapM parseIlMsg with
+  | none => "ERROR bad args"
+  | some msgs =>
+    let step (acc : List String × Option Conn) (m : IlMsg) : List String × Option Conn :=
+      match acc.2 with
+      | none => (acc.1 ++ ["[skipped]"], none)
+      | some c =>
+        let body := m.frags.flatten
+        let inflate : Bytes → Option Bytes :=
+          if m.compressed then fun s => if s == body ++ tail then some m.payload else none else fun _ => none
+        let r := ilRun inflate (some c) (ilFrames m)
+        (acc.1 ++ ["[" ++ " ".intercalate r.1 ++ "]"], r.2)
+    let r := msgs.foldl step ([], some Conn.init)
+    "il " ++ " ".intercalate r.1
+
 def stepLine (_ : Unit) (line : String) : Unit × List String :=
   let out := match words line with
     | [] => ""
@@ -110,6 +217,7 @@ def stepLine (_ : Unit) (line : String) : Unit × List String :=
     | ["reads", lv, v, a] => match lv.toNat?, Hex.toBytes? v, Hex.toBytes? a with
       | some n, some bs, some af => readsLine n bs af
       | _, _, _ => "ERROR bad args"
+    | "il" :: ms => ilLine ms
     | ["outloop", t, l] => match t.toNat?, l.toNat? with
       | some a, some b => outloopLine a b
       | _, _ => "ERROR bad args"
@@ -119,7 +227,7 @@ def stepLine (_ : Unit) (line : String) : Unit × List String :=
 def run (args : List String) : IO UInt32 := do
   match args with
   | ["consts"] =>
-    IO.println s!"reasmGrowLoops={reasmGrowLoops} reasmNoBufferGuard={reasmNoBufferGuard} compressStrict={compressStrict} sendChecked={sendChecked} flushMarkerMax={flushMarkerMax} flushSpare={flushSpare} responseMax={responseMax} factor={reasmFactor} header={reasmHeader} slack={reasmSlack}"
+    IO.println s!"reasmGrowLoops={reasmGrowLoops} reasmNoBufferGuard={reasmNoBufferGuard} compressStrict={compressStrict} sendChecked={sendChecked} fragFlagClearedByOpcode={fragFlagClearedByOpcode} flushMarkerMax={flushMarkerMax} flushSpare={flushSpare} responseMax={responseMax} factor={reasmFactor} header={reasmHeader} slack={reasmSlack}"
     return 0
   | [] =>
     Cjet.runLines stepLine ()
